@@ -17,6 +17,9 @@ def main(argv=None) -> int:
         if a.prop == 'selftest':
             from .selftest import selftest
             return selftest(a.tier, a.seed)
+        if a.prop.upper() == 'X01':
+            from .aux_switchboard import run
+            return run(a.tier, a.seed)
         from .engine import run_check
         mod = f'harness.props.{a.prop.lower()}'
         return run_check(mod, a.tier, a.seed, a.replay)
